@@ -1823,3 +1823,135 @@ func closureTargets(v ssa.Value) []*ssa.Function {
 	}
 	return out
 }
+
+// constMapValues: the values of a package-level map that is built once by the package initialiser from constants
+// (var m = map[K]V{k1: c1, ...}) and afterwards only read by lookups and len: nothing in the package stores into the
+// variable again, updates or deletes an entry, or lets the map value go anywhere else. ok is false otherwise.
+func constMapValues(pkg *ssa.Package, g *ssa.Global) (vals []int64, ok bool) {
+	initFn := pkg.Func("init")
+	okAll := true
+	var mk *ssa.MakeMap
+	mapValueOK := func(v ssa.Value, inInit bool) {
+		// every use of the map value itself
+		if v.Referrers() == nil {
+			okAll = false
+			return
+		}
+		for _, ref := range *v.Referrers() {
+			switch r := ref.(type) {
+			case *ssa.Lookup, *ssa.DebugRef, *ssa.Range:
+			case *ssa.Call:
+				if calleeNameSSA(&r.Call) != "builtin.len" {
+					okAll = false
+				}
+			case *ssa.MapUpdate:
+				if !inInit || r.Map != v {
+					okAll = false
+					continue
+				}
+				if k, isK := constIntOf(r.Value); isK {
+					vals = append(vals, k)
+				} else if b, isB := constBool(r.Value); isB {
+					if b {
+						vals = append(vals, 1)
+					} else {
+						vals = append(vals, 0)
+					}
+				} else {
+					okAll = false
+				}
+			case *ssa.Store:
+				if !inInit || r.Val != v || r.Addr != ssa.Value(g) {
+					okAll = false
+				}
+			default:
+				okAll = false
+			}
+		}
+	}
+	nStores := 0
+	for _, m := range pkg.Members {
+		fn, isFn := m.(*ssa.Function)
+		if !isFn {
+			continue
+		}
+		for _, sub := range withAnon(fn) {
+			allInstrs(sub, func(in ssa.Instruction) {
+				for _, op := range in.Operands(nil) {
+					if *op != ssa.Value(g) {
+						continue
+					}
+					switch t := in.(type) {
+					case *ssa.Store:
+						if t.Addr != ssa.Value(g) || sub != initFn {
+							okAll = false
+							continue
+						}
+						nStores++
+						m, isMk := t.Val.(*ssa.MakeMap)
+						if !isMk {
+							okAll = false
+							continue
+						}
+						mk = m
+					case *ssa.UnOp:
+						if t.Op != token.MUL {
+							okAll = false
+							continue
+						}
+						mapValueOK(t, false)
+					case *ssa.DebugRef:
+					default:
+						okAll = false
+					}
+				}
+			})
+		}
+	}
+	if nStores != 1 || mk == nil {
+		return nil, false
+	}
+	mapValueOK(mk, true)
+	return vals, okAll
+}
+
+// constSetOf: the constants a value can be: a constant, or what a lookup in a constant package-level map yields (the
+// zero value too when the lookup is not the checked form used under its ok).
+func constSetOf(pkg *ssa.Package, v ssa.Value) ([]int64, bool) {
+	if k, isK := constIntOf(v); isK {
+		return []int64{k}, true
+	}
+	var lk *ssa.Lookup
+	zero := false
+	switch t := v.(type) {
+	case *ssa.Extract:
+		l, ok := t.Tuple.(*ssa.Lookup)
+		if !ok || t.Index != 0 || !l.CommaOk {
+			return nil, false
+		}
+		lk, zero = l, true // without the ok being known, the zero value is possible
+	case *ssa.Lookup:
+		if t.CommaOk {
+			return nil, false
+		}
+		lk, zero = t, true
+	default:
+		return nil, false
+	}
+	ld, ok := lk.X.(*ssa.UnOp)
+	if !ok || ld.Op != token.MUL {
+		return nil, false
+	}
+	g, ok := ld.X.(*ssa.Global)
+	if !ok || g.Pkg != pkg {
+		return nil, false
+	}
+	vals, ok := constMapValues(pkg, g)
+	if !ok {
+		return nil, false
+	}
+	if zero {
+		vals = append(vals, 0)
+	}
+	return vals, true
+}
